@@ -15,7 +15,8 @@ if [ -n "${VERIF_REPLAY:-}" ]; then
   "$BUILD/c25" || rc=$?
   exit $rc
 fi
-export C25_KFAKE_SUMMARY="$BUILD/c25_kfake_summary.json"
-rm -f "$C25_KFAKE_SUMMARY"
+# per-run file: concurrent runs of this check must not clobber each other
+export C25_KFAKE_SUMMARY="$BUILD/c25_kfake_summary.$$.json"
+trap 'rm -f "$C25_KFAKE_SUMMARY"' EXIT
 "$BUILD/c25_kfake.test" -test.run '^TestVerifC25$' -test.timeout 0 || { echo "INFRA-ERROR: kfake harness failed" >&2; exit 2; }
-exec "$BUILD/c25"
+"$BUILD/c25"
